@@ -177,7 +177,7 @@ def autoclose(ctx):
     from pyworkers.thread import ThreadWorker
     from pyworkers.persistent_thread import PersistentThreadWorker
     for shape in (('T',), ('PT',), ('T', 'PT'), ('T', 'T', 'PT'), ('T0', 'T'), ()):
-        for exc in (False, True):
+        for exc in (False, True, 'KeyboardInterrupt', 'SystemExit', 'GeneratorExit'):
             reset_registry()
             ws = []
             flags = []
@@ -193,9 +193,12 @@ def autoclose(ctx):
                         else:
                             ws.append(PersistentThreadWorker(ident))
                     list(Worker.active_children())
-                    if exc:
+                    if exc is True:
                         raise KeyError('body fails')
-            except KeyError:
+                    if exc:
+                        # the block is left by something which is not an Exception (Ctrl-C, sys.exit())
+                        raise {'KeyboardInterrupt': KeyboardInterrupt, 'SystemExit': SystemExit, 'GeneratorExit': GeneratorExit}[exc]()
+            except (KeyError, KeyboardInterrupt, SystemExit, GeneratorExit):
                 pass
             alive = [i for i, w in enumerate(ws) if getattr(w, '_started', False) and w._child.is_alive()]
             ctx.count()
